@@ -74,6 +74,10 @@ DRIVERS = {
   | sep :: has :: ms :: xs => encR encLL (split_value (fun a b => a == b) xs sep (optOf has ms))''',
     'split_none': '''
   | has :: ms :: xs => encR encLL (split_none (fun x => x == -999983) xs (optOf has ms))''',
+    'lstrip_iter': '''
+  | v :: xs => encR encL (lstrip_iter (fun a b => a == b) xs v)''',
+    'lstrip_list': '''
+  | v :: xs => encR encL (lstrip_list (fun a b => a == b) xs v)''',
     'unique_iter': '''
   | xs => encR encL (unique_iter xs kf3)''',
     'unique_iter_nokey': '''
@@ -117,6 +121,9 @@ def _cases(name, rng, quick):
     elif name in ('unique_iter', 'unique_iter_nokey', 'bucketize', 'bucketize_plain'):
         for _ in range(n):
             out.append(_items(rng, hi=rng.choice([2, 5, 9])))
+    elif name in ('lstrip_iter', 'lstrip_list'):
+        for _ in range(n):
+            out.append([rng.randint(0, 2)] + _items(rng, hi=rng.choice([1, 2])))
     elif name == 'partition':
         for _ in range(n):
             out.append([1, 0] + _items(rng, hi=9))
@@ -160,6 +167,10 @@ def _py(name, mod, toks):
     if name == 'chunked_nocount':
         size, has, fill, fuel = toks[:4]
         return mod.chunked([it(x) for x in toks[4:]], size, None, **({'fill': it(fill)} if has else {}))
+    if name == 'lstrip_iter':
+        return list(mod.lstrip_iter(list(toks[1:]), _Obj(toks[0])))
+    if name == 'lstrip_list':
+        return mod.lstrip(list(toks[1:]), _Obj(toks[0]))
     if name == 'unique_list':
         return mod.unique(list(toks), lambda x: x % 3)
     if name == 'unique_list_nokey':
